@@ -9,6 +9,7 @@ standin_routing: RouteCQC on connected device graphs (line, ring, grid, star, ra
 mappers: two-qubit operations only on edges; equal to the input up to the reported qubit permutation.
 standin_devices: every vendor device accepts an operation exactly when its gateset contains it and its qubits / pairs allow it."""
 import itertools
+import math
 import random
 import warnings
 
@@ -541,7 +542,64 @@ def standin_devices(tier, seed):
             R.cases += 1
             want = (op in pgs) and all(x in pq for x in qs_)
             _accept(R, "PasqalDevice", pdev, op, want)
-    return R.out("vendor devices: validate_operation / validate_circuit", "devices", "GridDevice from a 4-qubit specification, IonQ / AQT / Pasqal devices on 3 qubits: 8-14 candidate gates on every qubit tuple incl. an off-device qubit")
+    # Pasqal virtual devices: a controlled-Z power is accepted exactly when the two atoms are within the control radius, with the
+    # distance taken in the space the qubits live in (line, grid, plane, 3d); the constructor refuses radii beyond 3x the closest pair
+    from cirq_pasqal import ThreeDQubit, TwoDQubit
+
+    def _pos(x):
+        if isinstance(x, cirq.GridQubit):
+            return (x.row, x.col, 0.0)
+        if isinstance(x, cirq.LineQubit):
+            return (x.x, 0.0, 0.0)
+        return (x.x, x.y, getattr(x, "z", 0.0))
+
+    def _dist(a, b):
+        return math.sqrt(sum((u - v) ** 2 for u, v in zip(_pos(a), _pos(b))))
+
+    layouts = [
+        [ThreeDQubit(0, 0, 0), ThreeDQubit(1, 0, 0), ThreeDQubit(0, 1, 0), ThreeDQubit(2, 0, 3), ThreeDQubit(1, 1, 2)],
+        [ThreeDQubit(rng.randint(0, 3) + 0.5 * i, rng.randint(0, 3), 1.5 * i) for i in range(4)],
+        [TwoDQubit(0, 0), TwoDQubit(1.5, 0), TwoDQubit(0, 2), TwoDQubit(3, 3.5)],
+        [cirq.GridQubit(0, 0), cirq.GridQubit(0, 1), cirq.GridQubit(2, 1), cirq.GridQubit(3, 3)],
+        [cirq.LineQubit(0), cirq.LineQubit(1), cirq.LineQubit(3), cirq.LineQubit(6)],
+    ]
+    for lay in layouts:
+        if len(set(lay)) != len(lay):
+            continue
+        dmin = min(_dist(a, b) for a, b in itertools.combinations(lay, 2))
+        for factor in (0.9, 1.0, 1.6, 2.3, 3.0, 3.2):
+            radius = factor * dmin
+            R.cases += 1
+            try:
+                vdev = cirq_pasqal.PasqalVirtualDevice(control_radius=radius, qubits=lay)
+                built = True
+            except ValueError:
+                built = False
+            if built != (radius <= 3.0 * dmin + 1e-9) and abs(radius - 3.0 * dmin) > 1e-9:
+                R.bad(f"PasqalVirtualDevice constructor {'accepts' if built else 'refuses'} a control radius of {factor} times the closest pair's distance", device="PasqalVirtualDevice", qubits=lay, control_radius=radius)
+            if not built:
+                continue
+            for a, b in itertools.permutations(lay, 2):
+                d = _dist(a, b)
+                if abs(d - radius) < 1e-9:
+                    continue
+                R.cases += 1
+                got_d = vdev.distance(a, b)
+                if abs(got_d - d) > 1e-9:
+                    R.bad("PasqalVirtualDevice.distance is not the Euclidean distance of the two qubits", device="PasqalVirtualDevice", qubits=[a, b], got=float(got_d), want=d)
+                for g in (cirq.CZ, cirq.CZ ** -1, cirq.CZ ** 0.5, cirq.CNOT):
+                    op = g.on(a, b)
+                    want = (op in vdev.gateset) and (op not in vdev.controlled_gateset or d <= radius)
+                    _accept(R, f"PasqalVirtualDevice(control_radius={radius:.3f})", vdev, op, want)
+                c = cirq.Circuit(cirq.X(a), cirq.CZ(a, b), cirq.measure(a, b, key="m"))
+                try:
+                    vdev.validate_circuit(c)
+                    got = True
+                except ValueError:
+                    got = False
+                if got != (d <= radius):
+                    R.bad(f"PasqalVirtualDevice.validate_circuit {'accepts' if got else 'refuses'} a CZ on atoms at distance {d:.3f} with control radius {radius:.3f}", device="PasqalVirtualDevice", circuit=c)
+    return R.out("vendor devices: validate_operation / validate_circuit", "devices", "Pasqal virtual devices on 5 layouts (3d, plane, grid, line) x 6 radii; GridDevice from a 4-qubit specification, IonQ / AQT / Pasqal devices on 3 qubits: 8-14 candidate gates on every qubit tuple incl. an off-device qubit")
 standin_devices.prop = "C07"
 
 
@@ -559,5 +617,5 @@ def _accept(R, name, dev, op, want):
 
 
 STANDINS = [standin_compile, standin_known_ops, standin_routing, standin_devices]
-NOT_COVERED = ["heuristic tabulation-based Sycamore compilation", "device specifications with couplers / asymmetric targets", "Pasqal virtual device distance rules beyond the three-qubit line used here"]
+NOT_COVERED = ["heuristic tabulation-based Sycamore compilation", "device specifications with couplers / asymmetric targets", "Pasqal virtual device layouts beyond the five used here"]
 EXPLANATION = "compilation to 17 target gatesets / option sets, vendor special cases, routing on 6 device graphs and vendor device acceptance: bounded stand-ins. "
